@@ -259,12 +259,20 @@ LIT_SUFFIX = {"is": "", "iu": "u", "ls": "l", "lu": "ul", "qs": "ll", "qu": "ull
 BIN_ARITH = ["+", "-", "*", "/", "%", "&", "|", "^", "<<", ">>"]
 BIN_CMP = ["<", "<=", ">", ">=", "==", "!="]
 
-# grammar levels: what the generator may emit (grown only as far as the unchanged tree stays quiet, see docs/C01.md)
+# what the generator emits in the quick / thorough tiers: grown only as far as the unchanged tree stays quiet (docs/C01.md lists
+# what each excluded construct triggers in cppcheck; witnesses for those live in corpus/C01/cases.json)
 GRAMMAR = dict(
-    types=["is", "iu", "cs", "cu", "ss", "su", "ls", "lu", "qs"],
+    types=["is"], lit_types=["is"],
+    bin_ops=["+", "-", "*", "<", "<=", ">", ">=", "==", "!="],
+    un_ops=["-"], logical=True, cast=False, cond=False, compound=True, compound_ops=["+", "-"], incdec=True, loops=False,
+    relational=False, ifs=True, early_return=False, not_cond=False, bare_cond=False, same_operands=False,
+)
+# the whole MiniC language (used by the interpreter / validator self-tests and available to the violation search)
+GRAMMAR_FULL = dict(
+    types=["is", "iu", "cs", "cu", "ss", "su", "ls", "lu", "qs"], lit_types=None,
     bin_ops=["+", "-", "*", "/", "%", "&", "|", "^", "<<", ">>"] + BIN_CMP,
-    un_ops=["-", "~", "!"],
-    logical=True, cast=True, cond=True, compound=True, incdec=True, loops=True, assign_expr_token=True,
+    un_ops=["-", "~", "!"], logical=True, cast=True, cond=True, compound=True, compound_ops=None, incdec=True, loops=True,
+    relational=True, ifs=True, early_return=True, not_cond=True, bare_cond=True, same_operands=True,
 )
 
 
@@ -405,7 +413,7 @@ class ProgGen:
             if rng.random() < 0.3:
                 if not (op in ("<<", ">>", "/", "%", "-")):
                     a, b = b, a
-            return ("T", self.fresh(), ("B", op, a, b))
+            return self.no_const_ub(("T", self.fresh(), ("B", op, a, b)))
         if k < 0.67 and g["un_ops"]:
             op = rng.choice(g["un_ops"])
             sub = self.expr(depth - 1, pool)
@@ -428,7 +436,17 @@ class ProgGen:
         rng = self.rng
         if depth <= 0 or rng.random() < 0.6:
             return self.lit()
-        return ("T", self.fresh(), ("B", rng.choice(["+", "-", "*"]), self.const_expr(depth - 1), self.const_expr(depth - 1)))
+        return self.no_const_ub(("T", self.fresh(), ("B", rng.choice(["+", "-", "*"]), self.const_expr(depth - 1), self.const_expr(depth - 1))))
+
+    def no_const_ub(self, e):
+        """a constant subexpression whose evaluation is undefined makes every execution through it undefined (all facts there
+        are vacuous, but only a backward analysis could tell): replace it by a literal"""
+        try:
+            if py_eval(self.plat, self.vars, e) is None:
+                return self.lit()
+        except NonConst:
+            pass
+        return e
 
     def cond_expr(self, depth, x=None):
         """a condition: comparison of an independent variable with a constant (or a constant when there is none)"""
@@ -547,6 +565,90 @@ class ProgGen:
         body = self.block(2, self.size)
         body = (";", body, ("return", self.expr(2, list(self.live))))
         return body
+
+
+class NonConst(Exception):
+    pass
+
+
+def py_eval(plat, vars_, e, env=None):
+    """python copy of MiniC.evalE (value only): None = undefined behaviour; raises NonConst for a variable when env is None"""
+    inner = e[2]
+    k = inner[0]
+    if k == "L":
+        return plat.conv(inner[2], inner[1])
+    if k == "V":
+        if env is None:
+            raise NonConst()
+        return env[inner[1]]
+    def arith(t, r):
+        if t[1] == "s":
+            return r if plat.tmin(t) <= r <= plat.tmax(t) else None
+        return plat.conv(t, r)
+    if k == "U":
+        a = py_eval(plat, vars_, inner[2], env)
+        if a is None:
+            return None
+        if inner[1] == "!":
+            return int(a == 0)
+        t = promote(plat, ty_of(plat, vars_, inner[2]))
+        a = plat.conv(t, a)
+        return arith(t, -a) if inner[1] == "-" else plat.conv(t, -a - 1)
+    if k == "B":
+        a = py_eval(plat, vars_, inner[2], env)
+        if a is None:
+            return None
+        b = py_eval(plat, vars_, inner[3], env)
+        if b is None:
+            return None
+        op = inner[1]
+        ta, tb = ty_of(plat, vars_, inner[2]), ty_of(plat, vars_, inner[3])
+        if op in ("<<", ">>"):
+            t = promote(plat, ta)
+            a, c = plat.conv(t, a), plat.conv(promote(plat, tb), b)
+            if c < 0 or c >= plat.bits(t):
+                return None
+            if op == "<<":
+                if t[1] == "s":
+                    return None if a < 0 else arith(t, a << c)
+                return plat.conv(t, a << c)
+            return a >> c
+        t = uac(plat, ta, tb)
+        a, b = plat.conv(t, a), plat.conv(t, b)
+        if op == "+": return arith(t, a + b)
+        if op == "-": return arith(t, a - b)
+        if op == "*": return arith(t, a * b)
+        if op == "/": return None if b == 0 else arith(t, tdiv(a, b))
+        if op == "%":
+            if b == 0 or (t[1] == "s" and a == plat.tmin(t) and b == -1):
+                return None
+            return a - tdiv(a, b) * b
+        m = (1 << plat.bits(t)) - 1
+        if op == "&": return plat.conv(t, (a & m) & (b & m))
+        if op == "|": return plat.conv(t, (a & m) | (b & m))
+        if op == "^": return plat.conv(t, (a & m) ^ (b & m))
+        return int({"<": a < b, "<=": a <= b, ">": a > b, ">=": a >= b, "==": a == b, "!=": a != b}[op])
+    if k in "AO":
+        a = py_eval(plat, vars_, inner[1], env)
+        if a is None:
+            return None
+        if k == "A" and a == 0:
+            return 0
+        if k == "O" and a != 0:
+            return 1
+        b = py_eval(plat, vars_, inner[2], env)
+        return None if b is None else int(b != 0)
+    if k == "C":
+        a = py_eval(plat, vars_, inner[2], env)
+        return None if a is None else plat.conv(inner[1], a)
+    if k == "Q":
+        c = py_eval(plat, vars_, inner[1], env)
+        if c is None:
+            return None
+        t = uac(plat, ty_of(plat, vars_, inner[2]), ty_of(plat, vars_, inner[3]))
+        v = py_eval(plat, vars_, inner[2] if c != 0 else inner[3], env)
+        return None if v is None else plat.conv(t, v)
+    raise ValueError(k)
 
 
 def vars_of(e):
@@ -850,7 +952,7 @@ def fact_holds(f, x):
     return {"P": x != f["v"], "U": x > f["v"], "L": x < f["v"]}[f["b"]]
 
 
-def boundary_args(rng, plat, prog, n):
+def boundary_args(rng, plat, prog, n, fact_values=()):
     """argument vectors: per parameter a candidate set (program literals and neighbours, 0, +-1, type limits, a few random
     values); the first vectors are diagonal, the others random points of the product"""
     lits = sorted(set(int(x) for x in re.findall(r"\b(\d+)[ul]*\b", prog["text"])))
@@ -861,10 +963,45 @@ def boundary_args(rng, plat, prog, n):
         c = {0, 1, -1, 2, -2, plat.tmin(t), plat.tmax(t), plat.tmin(t) + 1, plat.tmax(t) - 1}
         for l in lits:
             c |= {l - 1, l, l + 1, -l}
+        for fv in fact_values:       # inputs that put an operand at the boundary the rejected fact talks about
+            c |= {fv - 1, fv, fv + 1}
+            for l in lits[:12]:
+                c |= {fv + l, fv - l, l - fv}
         c |= {rng.randrange(-300, 300) for _ in range(3)} | {rng.randrange(plat.tmin(t), plat.tmax(t) + 1) for _ in range(3)}
         cands.append(sorted(set(plat.conv(t, v) for v in c)))
     out = [[plat.conv(t, 0) for t in ptys]]
     seen = {tuple(out[0])}
+    # phase 1: the full product of small per-parameter sets (type limits, 0, +-1, and the neighbours of every literal the
+    # parameter is directly compared with), as far as it stays below 3000 vectors
+    cmp_lits = {}
+    def scan(e):
+        inner = e[2]
+        if inner[0] == "B" and inner[1] in BIN_CMP:
+            for x, y in ((inner[2], inner[3]), (inner[3], inner[2])):
+                if x[2][0] == "V" and y[2][0] == "L":
+                    cmp_lits.setdefault(x[2][1], set()).add(y[2][1])
+        for c in inner[1:]:
+            if isinstance(c, tuple) and c and c[0] == "T":
+                scan(c)
+    for id_, node in prog.get("index", {}).items():
+        if node[0] in ("=", "op=", "++"):
+            continue
+        scan(("T", id_, node))
+    small = []
+    for i, t in enumerate(ptys):
+        c = {0, 1, -1, plat.tmin(t), plat.tmax(t)}
+        for l in cmp_lits.get(i, ()):
+            c |= {l - 1, l, l + 1}
+        small.append(sorted(set(plat.conv(t, v) for v in c)))
+    total = 1
+    for c in small:
+        total *= len(c)
+    if total <= 3000:
+        import itertools
+        for args in itertools.product(*small):
+            if args not in seen:
+                seen.add(args); out.append(list(args))
+    n += len(out)
     tries = 0
     while len(out) < n and tries < 4 * n:
         tries += 1
@@ -875,11 +1012,51 @@ def boundary_args(rng, plat, prog, n):
 
 
 def run_cppcheck_dump(ctx, path, platname):
-    rc, out, err = core.sh([ctx.cppcheck, "--dump", "-q", "--platform=" + platname, "--max-configs=1", path], timeout=120)
-    return rc, out + err
+    import time
+    for attempt in range(30):
+        try:
+            rc, out, err = core.sh([ctx.cppcheck, "--dump", "-q", "--platform=" + platname, "--max-configs=1", path], timeout=300)
+            return rc, out + err
+        except (PermissionError, FileNotFoundError, OSError):
+            time.sleep(2)      # the shared binary is being relinked by a concurrent check
+    return -1, "cppcheck binary not executable"
 
 
-def classify_program_violation(prog, plat, f, toks, run_events):
+def enclosing_ifs(body):
+    """statement/expression id -> tuple of (if-statement ordinal, branch) it is nested in"""
+    enc, counter = {}, [0]
+
+    def ex(e, path):
+        enc[e[1]] = path
+        for c in e[2][1:]:
+            if isinstance(c, tuple) and c and c[0] == "T":
+                ex(c, path)
+
+    def st(s, path):
+        k = s[0]
+        if k == "=":
+            enc[s[1]] = path; ex(s[3], path)
+        elif k == "op=":
+            enc[s[1]] = path; ex(s[4], path)
+        elif k == "++":
+            enc[s[1]] = path
+        elif k == ";":
+            st(s[1], path); st(s[2], path)
+        elif k == "if":
+            counter[0] += 1
+            n = counter[0]
+            ex(s[1], path); st(s[2], path + ((n, 0),)); st(s[3], path + ((n, 1),))
+        elif k == "while":
+            counter[0] += 1
+            n = counter[0]
+            ex(s[1], path + ((n, 2),)); st(s[2], path + ((n, 2),))
+        elif k == "return":
+            ex(s[1], path)
+    st(body, ())
+    return enc
+
+
+def classify_program_violation(prog, plat, f, toks, run_events, args=None):
     """known-finding classes of a reported fact that a concrete UB-free execution contradicts"""
     idx = prog["index"]
     node = idx.get(f["occ"])
@@ -906,6 +1083,31 @@ def classify_program_violation(prog, plat, f, toks, run_events):
                 t = toks.get((o["line"], o["col"])) if o else None
                 if t and any(("possible" in v or "inconclusive" in v) and "intvalue" in v for v in t["values"]):
                     return "infer-minus-impossible-from-possible-ref"
+    if node[0] == "V" and args is not None:
+        # F22: the fact describes the value the variable had BEFORE the last assignment of the failing run, and that assignment
+        # sits in a branch that does not enclose the read (forward analysis kept a value across a conditional assignment)
+        x = node[1]
+        enc = prog.setdefault("enc", enclosing_ifs(prog["body"]))
+        wr = {}
+        for id_, n in idx.items():
+            if n[0] == "=" and n[2] == x or n[0] == "op=" and n[3] == x or n[0] == "++" and n[4] == x:
+                wr[id_] = n
+        j = next((j for j, (i, v) in enumerate(run_events) if i == f["occ"] and not fact_holds(f, v)), None)
+        if j is not None:
+            ws = [k for k in range(j) if run_events[k][0] in wr]
+            if ws:
+                k1 = ws[-1]
+                wid = run_events[k1][0]
+                def written(k):
+                    n = wr[run_events[k][0]]
+                    if n[0] == "++" and not n[3]:     # postfix: the event carries the old value
+                        return run_events[k][1] + (1 if n[2] else -1)
+                    return run_events[k][1]
+                before = written(ws[-2]) if len(ws) > 1 else (args[x] if x < prog["nparams"] else None)
+                wpath, rpath = enc.get(wid, ()), enc.get(f["occ"], ())
+                conditional = len(wpath) > 0 and wpath[:len(wpath)] != rpath[:len(wpath)]
+                if before is not None and conditional and fact_holds(f, before):
+                    return "stale-value-after-conditional-assignment"
     return None
 
 
@@ -982,7 +1184,7 @@ def run_programs(ctx, res, drv, progs, nargs, fuel=400, chunk=20):
         by_prog.setdefault(id(prog), (prog, plat, toks, []))[3].append(f)
     rlines, rmeta = [], []
     for prog, plat, toks, fs in by_prog.values():
-        for args in boundary_args(rng, plat, prog, nargs):
+        for args in boundary_args(rng, plat, prog, nargs, sorted(set(f["v"] for f in fs))[:6]):
             rlines.append("run %s %d %s ## %s" % (plat.wire(), fuel, prog["wire"], " ".join(map(str, args))))
             rmeta.append((prog, args))
     rout = []
@@ -1077,7 +1279,7 @@ def run_programs(ctx, res, drv, progs, nargs, fuel=400, chunk=20):
             f = r["f"]
             desc = "%s %s%d on `%s` (occurrence %d, %s)" % ("Known" if f["k"] == "K" else "Impossible", "" if f["b"] == "P" else {"U": "<=", "L": ">="}[f["b"]],
                                                             f["v"], f["tok"], f["occ"], prog["occ"][f["occ"]]["kind"])
-            key = classify_program_violation(prog, plat, f, toks, r["evs"])
+            key = classify_program_violation(prog, plat, f, toks, r["evs"], r["args"])
             res.violation("cppcheck reports %s at %d:%d but the UB-free execution f(%s) evaluates it to %d (%d further reported facts fail as a consequence)\n%s" %
                           (desc, prog["occ"][f["occ"]]["line"], prog["occ"][f["occ"]]["col"], ", ".join(map(str, r["args"])), r["val"], r["derived"], prog["text"]),
                           dict(kind="program", platform=plat.name, text=prog["text"], wire=prog["wire"], fact=fact_tok(f), args=r["args"], value=r["val"],
